@@ -56,3 +56,196 @@ func H_C05_parse36() {
 		vAssert("typed-zero", typed && id == ID{})
 	}
 }
+
+//verif:harness C05 quick
+func H_C05_parse45() {
+	in := vBytes("in", 45)
+	r := Rule(vU8("rule") & 3)
+	id, err := DefaultParser(in, r)
+	// independent predicate: prefix [uU][rR][nN]:uuid: then the canonical form; URN form must be enabled
+	pre := (in[0] == 'u' || in[0] == 'U') && (in[1] == 'r' || in[1] == 'R') && (in[2] == 'n' || in[2] == 'N') &&
+		in[3] == ':' && in[4] == 'u' && in[5] == 'u' && in[6] == 'i' && in[7] == 'd' && in[8] == ':'
+	ok36, hi, lo := refParse36(in, 9, r&RuleDisableUpperCaseDigits == 0)
+	ok := pre && ok36 && r&RuleDisableURN == 0
+	vReach("accepted", err == nil)
+	vReach("rejected", err != nil)
+	vAssert("accept-iff-oracle", (err == nil) == ok)
+	if err == nil {
+		vAssert("value", id.Higher == hi && id.Lower == lo)
+	} else {
+		_, typed := err.(*ParseError[[]byte])
+		vAssert("typed-zero", typed && id == ID{})
+		if r&RuleDisableURN != 0 {
+			vAssert("urn-disabled-sentinel", errorsIs(err, ErrURNFormatDisabled))
+		}
+	}
+}
+
+func errorsIs(err, target error) bool {
+	for err != nil {
+		if err == target {
+			return true
+		}
+		u, ok := err.(interface{ Unwrap() error })
+		if !ok {
+			return false
+		}
+		err = u.Unwrap()
+	}
+	return false
+}
+
+// every other length is rejected (lengths 0..64 except 36 and 45; content arbitrary)
+//
+//verif:harness C05 quick n=0..35
+//verif:harness C05 quick n=37..44
+//verif:harness C05 quick n=46..64
+func H_C05_otherLength(n int) {
+	in := vBytes("in", n)
+	r := Rule(vU8("rule") & 3)
+	save := MaxInputLength
+	if vBool("nolimit") {
+		MaxInputLength = 0
+	}
+	id, err := DefaultParser(in, r)
+	MaxInputLength = save
+	vReach("rejected", err != nil)
+	vAssert("rejected", err != nil)
+	if err != nil {
+		_, typed := err.(*ParseError[[]byte])
+		vAssert("typed-zero", typed && id == ID{})
+	}
+}
+
+// refNibble gives nibble number k (0 = most significant of Higher) of an ID.
+func refNibble(id ID, k int) byte {
+	var v uint64
+	if k < 16 {
+		v = id.Higher >> uint(60-4*k)
+	} else {
+		v = id.Lower >> uint(60-4*(k-16))
+	}
+	v &= 0xf
+	if v < 10 {
+		return byte('0' + v)
+	}
+	return byte('a' + v - 10)
+}
+
+func refLayout(out []byte, off int, id ID) bool {
+	ok := true
+	k := 0
+	for p := 0; p < 36; p++ {
+		if p == 8 || p == 13 || p == 18 || p == 23 {
+			ok = ok && out[off+p] == '-'
+			continue
+		}
+		ok = ok && out[off+p] == refNibble(id, k)
+		k++
+	}
+	return ok
+}
+
+//verif:harness C05 quick
+func H_C05_format() {
+	id := ID{Higher: vU64("hi"), Lower: vU64("lo")}
+	urn := vBool("urn")
+	f := Format(0)
+	if urn {
+		f = FormatURN
+	}
+	out, err := DefaultFormatter(nil, id, f)
+	vAssert("no-error", err == nil)
+	if urn {
+		vReach("urn", true)
+		vAssert("length-45", len(out) == 45)
+		if len(out) == 45 {
+			vAssert("urn-prefix", string(out[:9]) == "urn:uuid:")
+			vAssert("layout", refLayout(out, 9, id))
+		}
+	} else {
+		vReach("plain", true)
+		vAssert("length-36", len(out) == 36)
+		if len(out) == 36 {
+			vAssert("layout", refLayout(out, 0, id))
+		}
+	}
+}
+
+func upperASCII(b []byte) []byte {
+	o := make([]byte, len(b))
+	for i, c := range b {
+		if c >= 'a' && c <= 'z' {
+			c -= 'a' - 'A'
+		}
+		o[i] = c
+	}
+	return o
+}
+
+//verif:harness C05 quick
+func H_C05_roundtrip() {
+	id := ID{Higher: vU64("hi"), Lower: vU64("lo")}
+	r := Rule(vU8("rule") & 3)
+	urn := vBool("urn")
+	upper := vBool("upper")
+	f := Format(0)
+	if urn {
+		f = FormatURN
+	}
+	text, _ := DefaultFormatter(nil, id, f)
+	if upper {
+		// upper-case the 32 hexadecimal digits only; the URN prefix keeps its documented spelling
+		n := len(text)
+		text = append(append([]byte{}, text[:n-36]...), upperASCII(text[n-36:])...)
+	}
+	back, err := DefaultParser(text, r)
+	sback, serr := DefaultParser(string(text), r)
+	allowed := !(urn && r&RuleDisableURN != 0) && !(upper && r&RuleDisableUpperCaseDigits != 0 && hasAlphaDigit(id))
+	vReach("accepted", err == nil)
+	vReach("rejected-by-rule", err != nil)
+	vAssert("accepted-iff-rule-allows", (err == nil) == allowed)
+	vAssert("string-agrees", (serr == nil) == (err == nil) && sback == back)
+	if err == nil {
+		vAssert("same-id", back == id)
+	}
+	// UnmarshalText / MarshalText / String / URN
+	var u ID
+	uerr := u.UnmarshalText(text)
+	vAssert("unmarshaltext", uerr == nil && u == id)
+	mt, merr := id.MarshalText()
+	plain, _ := DefaultFormatter(nil, id, 0)
+	vAssert("marshaltext-is-plain", merr == nil && string(mt) == string(plain))
+	vAssert("string-is-plain", id.String() == string(plain))
+	vAssert("urn-is-prefix-plus-plain", id.URN() == "urn:uuid:"+string(plain))
+}
+
+func hasAlphaDigit(id ID) bool {
+	for k := 0; k < 32; k++ {
+		if refNibble(id, k) >= 'a' {
+			return true
+		}
+	}
+	return false
+}
+
+//verif:harness C05 quick
+func H_C05_versionVariant() {
+	id := ID{Higher: vU64("hi"), Lower: vU64("lo")}
+	// RFC 4122: version = high nibble of time_hi_and_version (octet 6) ; variant = top bits of octet 8
+	ver := int(id.Higher>>12) & 15
+	vAssert("version", id.Version() == ver)
+	top := id.Lower >> 61
+	want := 3
+	switch {
+	case top&4 == 0:
+		want = 0
+	case top&2 == 0:
+		want = 1
+	case top&1 == 0:
+		want = 2
+	}
+	vAssert("variant", id.Variant() == want)
+	vReach("variant1", id.Variant() == 1)
+	vReach("variant3", id.Variant() == 3)
+}
